@@ -11,6 +11,7 @@ a well-formed SearchResultDone ends the driver with an error (fix F4) — and it
 C04's whole-history theorem: after that step nobody is left waiting.
 -/
 import Ldap3V.Lemmas.FramingWF
+import Ldap3V.Lemmas.FramingErr
 import Ldap3V.Lemmas.BerDepth
 import Ldap3V.Lemmas.EnvelopeShape
 import Ldap3V.Lemmas.ConnGaps
@@ -273,6 +274,93 @@ example : decodeInner exBindResp = .frame 1 exBindRespOp [⟨none, ⟨[0x31, 0x2
 example : IsEnvelope (.cons 3 16 ([.prim 0 4 [0x41]] ++ [.prim 0 2 [0xFF, 0xFF, 0xFF, 0xFF], .prim 1 2 [], .prim 2 10 [0x31]]))
     (-1) (.prim 1 2 []) [] :=
   .adTrailer 3 _ _ _ _ (-1) ⟨_, rfl, by decide, by decide, by decide⟩ rfl rfl
+
+/-! ## the read loop (`FramedRead` around the decoder) on a stream that goes bad
+
+The theorems above are about ONE decoder call.  These two are about the loop that feeds it
+successive reads (`Framing.feedAll`, Model/Envelope.lean), for EVERY segmentation of the stream. -/
+
+/-- **The error is reached under every segmentation, after exactly the good frames.**
+For every list of well-formed messages, every choice of definite-length encoding of each, every
+byte string `bad` whose outer element has arrived and is not an envelope (the hypotheses of
+`C11_complete_non_envelope_rejected`), every bytes `y` after it, and EVERY way `cs` of cutting
+`e₁ ++ … ++ eₙ ++ bad ++ y` into reads: the loop has delivered exactly the frames of the `n` messages, in
+order, and is in the error state; the buffer has been given up.  Nothing of `bad` or of `y` is ever
+delivered (and since `y` and the cuts are arbitrary, no later read changes that: FramedRead ends
+the stream at the first `Err`).  Size: the whole stream is shorter than 2^64 bytes (lber's `u64`
+length arithmetic). -/
+theorem C11_framing_rejects (ms : List (WireMsg × Bytes)) (bad y : Bytes) (cs : List Bytes)
+    (hwf : ∀ p ∈ ms, p.1.WF ∧ Enc p.1.tlv p.2)
+    (hsz : ((ms.map (·.2)).flatten ++ bad ++ y).length < 18446744073709551616)
+    (ha : OuterArrived bad)
+    (hn : ∀ t rest id op cs, parseTag bad = .ok t rest → ¬ IsEnvelope t id op cs)
+    (hc : cs.flatten = (ms.map (·.2)).flatten ++ bad ++ y) :
+    Framing.feedAll {} cs = { buf := [], frames := ms.map (·.1.frame), errored := true } :=
+  feedAll_wf_then_rejected ms bad y cs hwf hsz (C11_complete_non_envelope_rejected bad ha hn) hc
+
+/-- … the same for ANY element the decoder rejects (not only the complete non-envelopes: also a
+malformed length inside, nesting deeper than 64, …): the hypothesis is the outcome of the one call -/
+theorem C11_framing_rejects_any (ms : List (WireMsg × Bytes)) (bad y : Bytes) (cs : List Bytes)
+    (hwf : ∀ p ∈ ms, p.1.WF ∧ Enc p.1.tlv p.2)
+    (hsz : ((ms.map (·.2)).flatten ++ bad ++ y).length < 18446744073709551616)
+    (hb : decodeInner bad = .decodeError)
+    (hc : cs.flatten = (ms.map (·.2)).flatten ++ bad ++ y) :
+    Framing.feedAll {} cs = { buf := [], frames := ms.map (·.1.frame), errored := true } :=
+  feedAll_wf_then_rejected ms bad y cs hwf hsz hb hc
+
+/-- **The loop waits only for incomplete elements** (the dual): after ANY reads of ANY bytes, if the
+loop is not in the error state then what it holds back is (a) the tail of what was read, (b) a
+buffer on which the decoder answers "need more", i.e. (c) one whose outer element has NOT arrived
+and (d) which is a proper prefix of an arrived outer element.  Nothing complete is ever left
+undecided between reads — neither a complete message (it was delivered) nor a complete non-message
+(the loop would be in the error state). -/
+theorem C11_framing_waits_only_for_incomplete (cs : List Bytes)
+    (he : (Framing.feedAll {} cs).errored = false) :
+    (∃ pre, cs.flatten = pre ++ (Framing.feedAll {} cs).buf) ∧
+    decodeInner (Framing.feedAll {} cs).buf = .needMore ∧
+    ¬ OuterArrived (Framing.feedAll {} cs).buf ∧
+    ∃ y, y ≠ [] ∧ OuterArrived ((Framing.feedAll {} cs).buf ++ y) := by
+  have hd : decodeInner (Framing.feedAll {} cs).buf = .needMore := by
+    rcases feedAll_drained {} cs init_drained with h | h
+    · rw [he] at h; cases h
+    · exact h
+  obtain ⟨pre, hp⟩ := feedAll_suffix {} cs he
+  exact ⟨⟨pre, by simpa using hp⟩, hd, (C11_need_more_iff _).mp hd, (C11_need_more_is_proper_prefix _).1 hd⟩
+
+/-- in the strict X.690 vocabulary of `C11_outer_complete_decides`: the buffer held back between
+reads is never a complete outer element (with or without bytes after it) -/
+theorem C11_framing_never_holds_complete (cs : List Bytes) (he : (Framing.feedAll {} cs).errored = false) :
+    ¬ OuterComplete (Framing.feedAll {} cs).buf := fun h =>
+  (C11_framing_waits_only_for_incomplete cs he).2.2.1 (C11_outerComplete_arrived _ h)
+
+/-! ### non-vacuity (tests) -/
+
+/-- a DelResponse, message ID 1, success: `30 0c 02 01 01 6b 07 0a 01 00 04 00 04 00` -/
+def exDelResp : WireMsg := ⟨[1], 1, .cons 1 11 [.prim 0 10 [0], .prim 0 4 [], .prim 0 4 []], none⟩
+def exDelRespBytes : Bytes := [0x30, 0x0c, 0x02, 0x01, 0x01, 0x6b, 0x07, 0x0a, 0x01, 0x00, 0x04, 0x00, 0x04, 0x00]
+
+example : exDelResp.WF ∧ Enc exDelResp.tlv exDelRespBytes := by
+  refine ⟨⟨by decide, by decide, rfl, ?_, ?_⟩, ?_⟩
+  · intro cs h; cases h
+  · simp [WireMsg.tlv, exDelResp, msgTlv, Tlv.depth, Tlv.depthList, maxDepth]
+  · have := enc_encode exDelResp.tlv (by simp [exDelResp, WireMsg.tlv, msgTlv, WF, WFList, encodeList, encode, encType, encLen])
+    simpa [exDelResp, exDelRespBytes, WireMsg.tlv, msgTlv, encodeList, encode, encType, encLen] using this
+
+/-- one good message, then `30 03 04 01 41` (hypotheses shown above), then the beginning of another
+message: all at once, in three reads cutting through the bad element, and one byte at a time — the
+one frame (ID 1, protocolOp 11), the error state, an empty buffer -/
+example :
+    let stream := exDelRespBytes ++ [0x30, 0x03, 0x04, 0x01, 0x41] ++ [0x30, 0x0c, 0x02]
+    ∀ cs ∈ [[stream], [stream.take 9, (stream.drop 9).take 7, stream.drop 16], stream.map ([·])],
+      cs.flatten = stream ∧
+      (Framing.feedAll {} cs).frames.map (fun f => (f.1, f.2.1.id)) = [(1, 11)] ∧
+      (Framing.feedAll {} cs).errored = true ∧ (Framing.feedAll {} cs).buf = [] := by decide
+
+/-- the dual: a stream cut off inside the second message — not in the error state, the buffer is
+the unfinished element -/
+example :
+    (Framing.feedAll {} ((exDelRespBytes ++ [0x30, 0x03, 0x04]).map ([·]))).errored = false ∧
+    (Framing.feedAll {} ((exDelRespBytes ++ [0x30, 0x03, 0x04]).map ([·]))).buf = [0x30, 0x03, 0x04] := by decide
 
 end Ldap3V
 
